@@ -790,6 +790,31 @@ Theorem C08_no_panic_channel_debug : forall enc_block md5 o rate bps ch total w 
   match channel_run enc_block md5 Debug w chunks with Panic k => k = POverflow | _ => True end.
 Proof. exact channel_run_safe_debug. Qed.
 
+(* C15 declared-length contract, soundness direction, for the byte and channel front-ends (by equality of runs with the
+   sample writer): a successful run wrote exactly the declared amount, and STREAMINFO records the whole PCM frames *)
+Theorem C15_length_contract_byte : forall enc_block md5 p en o rate bps ch total w (chunks : list (list N)) f,
+  (forall l, length (md5 l) = 16%nat) ->
+  options_wf o -> byte_new p en [] o rate bps ch total = Ok w -> Forall byte_ok (concat chunks) ->
+  byte_run enc_block md5 p w chunks = Ok f -> FlacWriters.Encoder_proofs.counters_fit (f_enc f) ->
+  let nb := bytes_per_sample_of bps in
+  let samples := decoded en (N.to_nat nb) (concat chunks) in
+  exists cs r, drain (N.to_nat (ch * o_block_size o)) samples = (cs, r) /\
+    let written := o_block_size o * N.of_nat (length cs) + N.of_nat (length r) / ch in
+    si_total (f_si f) = Some written /\ 1 <= written < MAX_SAMPLES /\
+    match total with Some t => t = nb * (ch * written) | None => True end.
+Proof. exact byte_length_contract. Qed.
+
+Theorem C15_length_contract_channel : forall enc_block md5 p o rate bps ch total w (chunks : list (list (list Z))) f,
+  (forall l, length (md5 l) = 16%nat) -> 1 <= ch ->
+  options_wf o -> channel_new p [] o rate bps ch total = Ok w -> Forall (chunk_ok (N.to_nat ch)) chunks ->
+  channel_run enc_block md5 p w chunks = Ok f -> FlacWriters.Encoder_proofs.counters_fit (f_enc f) ->
+  let samples := concat (multizip (cconcat (N.to_nat ch) chunks)) in
+  exists cs r, drain (N.to_nat (ch * o_block_size o)) samples = (cs, r) /\
+    let written := o_block_size o * N.of_nat (length cs) + N.of_nat (length r) / ch in
+    si_total (f_si f) = Some written /\ 1 <= written < MAX_SAMPLES /\
+    match total with Some t => t = written | None => True end.
+Proof. exact channel_length_contract. Qed.
+
 Print Assumptions C07_decoded_file_is_read_bytes_channels.
 Print Assumptions C03_valid_file_is_read.
 Print Assumptions C07_decoded_file_is_read.
@@ -857,3 +882,5 @@ Print Assumptions C15_exact_fill_succeeds_byte.
 Print Assumptions C15_exact_fill_succeeds_channel.
 Print Assumptions C08_no_panic_byte_debug.
 Print Assumptions C08_no_panic_channel_debug.
+Print Assumptions C15_length_contract_byte.
+Print Assumptions C15_length_contract_channel.
